@@ -65,6 +65,25 @@ CLAIMED = {
             "`hera --throttle`, byte-identical output with debugging ops added, disassemble/re-assemble.",
             "trusted: Spec/WordMachine.v, Spec/EncTable.v, Spec/ISA.v, Model/Run.v, Model/Bitvec.v; the "
             "preprocessor's layout is covered by C04's check"),
+    "C08": ("Coq theorems: for every operation class that expands to instructions and every operand list the checker "
+            "accepts (registers 0..15, literals, symbols bound to labels < 65536 / data labels / constants), the "
+            "substitution and convert() (regenerated) succeed and every resulting real operation denotes an "
+            "instruction whose operands fit their machine fields (valid_instr); relative label branches accepted by "
+            "convert_ops carry an in-range distance; such instructions assemble to their table word (C05) and execute "
+            "from well-formed states without raising, for runs of any length (C02). The composition through "
+            "checker.check() is hand-modelled (Model/Preproc.v, differential) and exercised on the real tool in "
+            "run/assemble/preprocess mode: assemble->disassemble identity of every emitted operation, no internal "
+            "exception in run, assemble (--code/--data), preprocess (--obfuscate).",
+            "trusted: Model/Preproc.v, tokens as the parser builds them (tok_wf), no user __eval"),
+    "C09": ("PARTIAL proof. Coq theorems: the P tuples regenerated from hera/op.py equal the hand-written documented "
+            "signature table (operand counts, kinds, both ends of every range) for every operation; an operand is "
+            "accepted iff it conforms to its documented kind, for all integers, all token kinds and every binding of "
+            "a symbol; hence an operation passes the generic type-check iff it has exactly the documented operands; "
+            "each step of the program-level check reports an error iff the operation is rejected, or is data after "
+            "code, an interrupt where unsupported, or a debugging op under --no-debug-ops. The composition over whole "
+            "programs (constant scoping, redeclaration, far branches) is decided on an enumerated grid (complete in "
+            "the thorough tier) against an independent re-implementation of the documented rules.",
+            "trusted: Model/Preproc.v (differential on the grid), Spec/Signature.v, the oracle in tools/props/C09.py"),
 }
 
 checks = []
